@@ -91,12 +91,12 @@ def _collect_chunk(job):
     return recs
 
 
-def collect(ctx, with_lxml=False, families=None, positions=None):
+def collect(ctx, with_lxml=False, families=None, positions=None, family=None):
     """Run every case x position x family (in a pool of processes; cases of one type stay together so that the
     applications are shared); -> list of records (case, pos, fam, obs) in case order."""
     global _CASES, _OKV
     import multiprocessing
-    d = V.export(ctx)
+    d = V.export(ctx, family)
     cases = d['cases']
     fams = families or sorted(d['families'])
     ok_value = {}
